@@ -43,8 +43,8 @@ theorem fieldsIn_interval (i : Int) : FieldsIn (if i != 1 then [lit "INTERVAL=" 
       (handleU_interval i)
   · exact fieldsIn_nil _
 
-theorem fieldsIn_wkst (k : Int) (h0 : 0 ≤ k) (h6 : k ≤ 6) :
-    FieldsIn (if k != 0 then [lit "WKST=" ++ wdName k] else []) .wkst := by
+theorem fieldsIn_wkst (k : Int) (h0 : 0 ≤ k) (h6 : k ≤ 6) (b : Bool) :
+    FieldsIn (if b then [lit "WKST=" ++ wdName k] else []) .wkst := by
   split
   · exact fieldsIn_single (po := {}) (name := lit "WKST") (by decide) (fun c hc => isAtom_isValC c (wdName_atoms k h0 h6 c hc))
       (handleU_wkst k h0 h6)
@@ -107,7 +107,7 @@ theorem partsOf_fields (x : StrIn) (hx : Printable x) : ((partsOf x).map partFie
       (∀ value l, intList value = .ok l → handleU {} (lit name) value = .ok (mk l)) →
       ∀ v, FieldsIn (partOf name v) f := fieldsIn_partOf
   have h := ((((((((((((((fieldsIn_freq x.freq hx.freq).append (fieldsIn_interval x.interval)).append
-    (fieldsIn_wkst x.wkst hx.wkst0 hx.wkst6)).append (fieldsIn_count x.count)).append (fieldsIn_until x.untilV)).append
+    (fieldsIn_wkst x.wkst hx.wkst0 hx.wkst6 (x.wkst != 0 || x.fwd != 0))).append (fieldsIn_count x.count)).append (fieldsIn_until x.untilV)).append
     (il "BYSETPOS" .bysetpos .bysetpos (fun _ => rfl) (by decide) (by intro value l h; simp [handleU, lit, h, bind, Except.bind]) x.orig.bysetpos)).append
     (il "BYMONTH" .bymonth .bymonth (fun _ => rfl) (by decide) (by intro value l h; simp [handleU, lit, h, bind, Except.bind]) x.orig.bymonth)).append
     (il "BYMONTHDAY" .bymonthday .bymonthday (fun _ => rfl) (by decide) (by intro value l h; simp [handleU, lit, h, bind, Except.bind]) x.orig.bymonthday)).append
